@@ -105,8 +105,6 @@ broadcast use {crate::iter_items_array, crate::iter_items_vec};
             old(self)@.len() < %d ==> r is Err,
             final(self)@.len() <= old(self)@.len()""" % (n, n, n, n), props=('C05', 'C08'), **kw)
 
-    R2_pop2 = ('R2', 'let [w0, w1] = self.pop2()?;', 'let t2 = self.pop2()?; let w0 = t2[0]; let w1 = t2[1];')
-
     def pop_push(name, nin, nout):
         """generic popN_pushM<F, E>(f)"""
         n = nin
@@ -124,8 +122,6 @@ broadcast use {crate::iter_items_array, crate::iter_items_vec};
         else:
             okcase = 'Ok(x) => (t.len() + %d <= 4096 ==> r is Ok && final(self)@ =~= t + x@) && (t.len() + %d > 4096 ==> r is Err)' % (nout, nout)
         rw = []
-        if nin == 2:
-            rw = [R2_pop2]
         return F(name, requires=WF + ', old(self)@.len() >= %d ==> %s' % (n, call_req),
                  ensures=WFE + """,
             old(self)@.len() < %d ==> r is Err,
@@ -143,9 +139,9 @@ broadcast use {crate::iter_items_array, crate::iter_items_vec};
           note='generic IntoIterator loop: iterator laws of an abstract I cannot be discharged; bounded Kani check through public callers', props=('C05', 'C08')),
         sop('reserve_zeroed', 'sp_reserve'),
         sop('load', 'sp_load'),
-        sop('store', 'sp_store', rewrites=[('R2', 'let [word, ix] = self.pop2()?;', 'let t2 = self.pop2()?; let word = t2[0]; let ix = t2[1];')]),
-        sop('dup_from', 'sp_dup_from', rewrites=[('R9', '|i| i.checked_sub(1)',
-            '|i: usize| -> (o: Option<usize>) ensures o == (if i >= 1 { Some((i - 1) as usize) } else { None::<usize> }) { i.checked_sub(1) }')]),
+        sop('store', 'sp_store', rewrites=[]),
+        sop('dup_from', 'sp_dup_from', closures={'.and_then(': {'params': 'i: usize', 'ret': 'o: Option<usize>',
+            'ensures': 'o == (if i >= 1 { Some((i - 1) as usize) } else { None::<usize> })'}}),
         sop('swap_index', 'sp_swap_index'),
         sop('select', 'sp_select', mode='assumed', note='closure captures &mut self (Verus: unsupported); Kani K2 through step_op_stack(Select)'),
         sop('select_range', 'sp_select_range'),
@@ -153,10 +149,9 @@ broadcast use {crate::iter_items_array, crate::iter_items_vec};
             old(self)@.len() > 0 ==> r == Ok::<Word, StackError>(old(self)@.last()) && final(self)@ =~= old(self)@.drop_last(),
             old(self)@.len() == 0 ==> r is Err && final(self)@ == old(self)@""", props=('C05', 'C08')),
         popn('pop2', 2),
-        popn('pop3', 3, rewrites=[('R2', 'let [w0, w1] = self.pop2()?;', 'let t2 = self.pop2()?; let w0 = t2[0]; let w1 = t2[1];')]),
-        popn('pop4', 4, rewrites=[('R2', 'let [w0, w1, w2] = self.pop3()?;', 'let t3 = self.pop3()?; let w0 = t3[0]; let w1 = t3[1]; let w2 = t3[2];')]),
-        popn('pop8', 8, rewrites=[('R2', 'let [w4, w5, w6, w7] = self.pop4()?;', 'let t4 = self.pop4()?; let w4 = t4[0]; let w5 = t4[1]; let w6 = t4[2]; let w7 = t4[3];'),
-                                  ('R2', 'let [w0, w1, w2, w3] = self.pop4()?;', 'let u4 = self.pop4()?; let w0 = u4[0]; let w1 = u4[1]; let w2 = u4[2]; let w3 = u4[3];')]),
+        popn('pop3', 3, rewrites=[]),
+        popn('pop4', 4, rewrites=[]),
+        popn('pop8', 8, rewrites=[]),
         pop_push('pop1_push1', 1, 1),
         pop_push('pop2_push1', 2, 1),
         pop_push('pop8_push1', 8, 1),
@@ -272,8 +267,8 @@ pub assume_specification [<Memory as core::default::Default>::default] () -> (r:
     pr = u.module('pred', file='crates/vm/src/pred.rs', uses='use crate::error::{OpError, OpResult, StackError}; use crate::essential_types::Word; use crate::*; use crate::sets::decode_set; use std::collections::HashSet; broadcast use crate::spec_from_is_from;')
     pr.fn('eq_range', F('eq_range', requires='stack_wf(old(stack)@)', ensures="""stack_wf(final(stack)@), r matches Err(e) ==> crate::error::err_plain(e),
             match crate::sp_eq_range(old(stack)@) { Some(s) => r is Ok && final(stack)@ =~= s, None => r is Err }""",
-          rewrites=[('R9', '|words| {', '''|words: &[Word]| -> (o: Result<bool, OpError>)
-                requires len <= words@.len(), ensures o == Ok::<bool, OpError>(words@.take(len as int) == words@.skip(len as int)) {''')],
+          closures={'pop_len_words::<_, _, OpError>(': {'params': 'words: &[Word]', 'ret': 'o: Result<bool, OpError>', 'requires': 'len <= words@.len()',
+                    'ensures': 'o == Ok::<bool, OpError>(words@.take(len as int) == words@.skip(len as int))'}},
           hints=[('Ok(a == b)', 'before', 'assert(<[i64] as vstd::std_specs::cmp::PartialEqSpec<[i64]>>::obeys_eq_spec()); assert((a@ == b@) == (a@ =~= b@));'),
                  ('stack.push(eq.into())?;', 'before', '''let t = old(stack)@.drop_last(); let l = len as int; let base = t.len() - 2 * l;
                     let w = crate::lw_words(t.push(double));
@@ -308,7 +303,7 @@ pub assume_specification [<Repeat as core::default::Default>::default] () -> (r:
             match crate::sp_repeat_begin(pc as int, old(stack)@, old(repeat_)@) {
                 Some((s, rs)) => r is Ok && final(stack)@ =~= s && final(repeat_)@ =~= rs,
                 None => r is Err && final(repeat_)@ == old(repeat_)@ }""",
-          rewrites=[('R2', 'let [num_repeats, count_up] = stack.pop2()?;', 'let t2 = stack.pop2()?; let num_repeats = t2[0]; let count_up = t2[1];')],
+          rewrites=[],
           props=('C05', 'C09')))
     rp.impl('impl Repeat', [
         F('new', ensures='r@ =~= Seq::<SlotS>::empty()', props=('C09',)),
@@ -319,7 +314,7 @@ pub assume_specification [<Repeat as core::default::Default>::default] () -> (r:
             old(self)@.len() < 4096 ==> r is Ok && final(self)@ =~= old(self)@.push(SlotS { counter: 0, up: Some(limit), start: location as int }),
             old(self)@.len() >= 4096 ==> r is Err && final(self)@ == old(self)@""", props=('C05', 'C09')),
         F('counter', ensures="""self@.len() > 0 ==> r == Ok::<Word, RepeatError>(self@.last().counter), self@.len() == 0 ==> r is Err""",
-          rewrites=[('R9', '|s| s.counter', '|s: &Slot| -> (c: Word) ensures c == s@.counter { s.counter }')], props=('C05', 'C09', 'C12')),
+          closures={'.map(': {'params': 's: &Slot', 'ret': 'c: Word', 'ensures': 'c == s@.counter'}}, props=('C05', 'C09', 'C12')),
         F('repeat', requires=RW, ensures=RWE + """,
             old(self)@.len() == 0 ==> r is Err && final(self)@ == old(self)@,
             old(self)@.len() > 0 ==> ({ let sl = old(self)@.last(); let rest = old(self)@.drop_last();
@@ -357,7 +352,7 @@ pub open spec fn ctrl_kind_ok(op: crate::Op, c: Option<ProgramControlFlow>) -> b
                     None => r is Err,
                     Some(None) => r is Ok && r->Ok_0 is None,
                     Some(Some(p)) => r is Ok && r->Ok_0 == Some(ProgramControlFlow::Pc(p as usize)) } })""",
-          rewrites=[('R2', 'let [dist, cond] = stack.pop2()?;', 'let t2 = stack.pop2()?; let dist = t2[0]; let cond = t2[1];')],
+          rewrites=[],
           props=('C05', 'C09')))
     tc.fn('halt_if', F('halt_if', requires='stack_wf(old(stack)@)', ensures="""stack_wf(final(stack)@), r matches Err(e) ==> crate::error::err_plain(e),
             old(stack)@.len() < 1 ==> r is Err,
@@ -415,7 +410,7 @@ pub open spec fn access_wf(a: Access) -> bool { a.index < a.solutions@.len() }
     ac.fn('resolve_predicate_data_len', F('resolve_predicate_data_len', ensures="""
             slot_ix < predicate_data@.len() ==> r == Ok::<usize, AccessError>(predicate_data@[slot_ix as int]@.len() as usize),
             slot_ix >= predicate_data@.len() ==> r is Err""",
-        rewrites=[('R9', '|slot| slot.len()', '|slot: &Value| -> (l: usize) ensures l == slot@.len() { slot.len() }')], props=('C05', 'C12')))
+        closures={'.map(': {'params': 'slot: &Value', 'ret': 'l: usize', 'ensures': 'l == slot@.len()'}}, props=('C05', 'C12')))
     ac.fn('range_from_start_len', F('range_from_start_len', ensures="""
             0 <= start && 0 <= len && start + len <= usize::MAX ==> r is Some && r->Some_0.start == start && r->Some_0.end == start + len,
             !(0 <= start && 0 <= len && start + len <= usize::MAX) ==> r is None""", props=('C05', 'C12')))
@@ -470,16 +465,14 @@ pub open spec fn sp_memory(op: asm::Memory, s: Seq<i64>, m: Seq<i64>) -> Option<
         return ('R9', '|%s| %s' % (params, body), '|%s| -> (o: %s) ensures %s { %s }' % (typed, ret, ens, body))
     OW = 'OpResult<Word>'
 
-    def p2(expr, spec):
-        return R9('a, b', 'Ok(%s)' % expr, 'a: Word, b: Word', OW, 'o == Ok::<Word, OpError>(%s)' % spec)
+    def pc2(variant, spec):
+        return ('asm::Pred::%s =>' % variant, {'params': 'a: Word, b: Word', 'ret': 'o: ' + OW, 'ensures': 'o == Ok::<Word, OpError>(%s)' % spec})
     sy.fn('step_op_pred', F('step_op_pred', requires=SW, ensures=SWE + """,
             r matches Err(e) ==> err_plain(e),
             !(op is EqSet) ==> match sp_pred(op, old(stack)@) { Some(s) => r is Ok && final(stack)@ =~= s, None => r is Err }""",
-        rewrites=[p2('(a == b).into()', 'b2w(a == b)'), p2('(a > b).into()', 'b2w(a > b)'), p2('(a < b).into()', 'b2w(a < b)'),
-                  p2('(a >= b).into()', 'b2w(a >= b)'), p2('(a <= b).into()', 'b2w(a <= b)'),
-                  p2('(a != 0 && b != 0).into()', 'b2w(a != 0 && b != 0)'), p2('(a != 0 || b != 0).into()', 'b2w(a != 0 || b != 0)'),
-                  R9('a', 'Ok((a == 0).into())', 'a: Word', OW, 'o == Ok::<Word, OpError>(b2w(a == 0))'),
-                  p2('a & b', 'a & b'), p2('a | b', 'a | b')],
+        closures=dict([pc2('Eq', 'b2w(a == b)'), pc2('Gt', 'b2w(a > b)'), pc2('Lt', 'b2w(a < b)'), pc2('Gte', 'b2w(a >= b)'), pc2('Lte', 'b2w(a <= b)'),
+                       pc2('And', 'b2w(a != 0 && b != 0)'), pc2('Or', 'b2w(a != 0 || b != 0)'), pc2('BitAnd', 'a & b'), pc2('BitOr', 'a | b'),
+                       ('asm::Pred::Not =>', {'params': 'a: Word', 'ret': 'o: ' + OW, 'ensures': 'o == Ok::<Word, OpError>(b2w(a == 0))'})]),
         props=('C05', 'C08')))
 
     FROM_STACK = ('R7', '.map_err(From::from)', '.map_err(|e: crate::error::StackError| -> (o: OpError) ensures o == OpError::<core::convert::Infallible>::Stack(e) { From::from(e) })', 'all')
@@ -497,11 +490,12 @@ pub open spec fn sp_memory(op: asm::Memory, s: Seq<i64>, m: Seq<i64>) -> Option<
             !(op is RepeatEnd) && !(op is Repeat) ==> final(repeat)@ == old(repeat)@ &&
                 match sp_stack(op, old(stack)@) { Some(s) => r is Ok && r->Ok_0 is None && final(stack)@ =~= s, None => r is Err }""",
         rewrites=[('R7', '.map(ProgramControlFlow::Pc)', '.map(|p: usize| -> (o: ProgramControlFlow) ensures o == ProgramControlFlow::Pc(p) { ProgramControlFlow::Pc(p) })'),
-                  ('R9', '|_| Ok(())', '|_w: &[Word]| -> (o: OpResult<()>) ensures o is Ok { Ok(()) }'),
-                  R9('w', 'Ok([w, w])', 'w: Word', 'OpResult<[Word; 2]>', 'o is Ok && o->Ok_0@ == seq![w, w]'),
-                  R9('a, b', 'Ok([b, a])', 'a: Word, b: Word', 'OpResult<[Word; 2]>', 'o is Ok && o->Ok_0@ == seq![b, a]'),
-                  ('R9', '.map(|_| ())', '.map(|_w: Word| -> (o: ()) { () })'),
-                  FROM_STACK, NONE_MAP('.map(|_| None)')],
+                  FROM_STACK],
+        closures={'asm::Stack::Drop =>': {'params': '_w: &[Word]', 'ret': 'o: OpResult<()>', 'ensures': 'o is Ok'},
+                  'asm::Stack::Dup =>': {'params': 'w: Word', 'ret': 'o: OpResult<[Word; 2]>', 'ensures': 'o is Ok && o->Ok_0@ == seq![w, w]'},
+                  'asm::Stack::Swap =>': {'params': 'a: Word, b: Word', 'ret': 'o: OpResult<[Word; 2]>', 'ensures': 'o is Ok && o->Ok_0@ == seq![b, a]'},
+                  'asm::Stack::Pop =>': {'params': '_w: Word', 'ret': 'o: ()'},
+                  'r.map(': {'params': '_u: ()', 'ret': 'o: Option<ProgramControlFlow>', 'ensures': 'o is None'}},
         props=('C05', 'C08', 'C09')))
     sy.fn('step_op_total_control_flow', F('step_op_total_control_flow', requires=SW, ensures=SWE + """,
             r matches Err(e) ==> err_plain(e),
@@ -516,7 +510,7 @@ pub open spec fn sp_memory(op: asm::Memory, s: Seq<i64>, m: Seq<i64>) -> Option<
                 None => r is Err, Some(false) => r is Ok && r->Ok_0 is None, Some(true) => r is Ok && r->Ok_0 == Some(ProgramControlFlow::Halt) },
             op is PanicIf && old(stack)@.len() >= 1 ==> final(stack)@ =~= old(stack)@.drop_last() && match w2b(old(stack)@.last()) {
                 None => r is Err, Some(false) => r is Ok && r->Ok_0 is None, Some(true) => r is Err }""",
-        rewrites=[NONE_MAP('.map(|_| None)')], props=('C05', 'C09')))
+        closures={'panic_if(stack).map(': {'params': '_u: ()', 'ret': 'o: Option<ProgramControlFlow>', 'ensures': 'o is None'}}, props=('C05', 'C09')))
 
     def marm(name, sp, **kw):
         return F(name, requires=SW + ', mem_wf(old(memory)@)', ensures=SWE + """, mem_wf(final(memory)@), r matches Err(e) ==> err_plain(e),
@@ -527,10 +521,10 @@ pub open spec fn sp_memory(op: asm::Memory, s: Seq<i64>, m: Seq<i64>) -> Option<
             match sp_memory(op, old(stack)@, old(memory)@) { Some((s, m)) => r is Ok && final(stack)@ =~= s && final(memory)@ =~= m, None => r is Err }""",
         props=('C05', 'C08')), {
         'Alloc': marm('step_op_memory__Alloc', 'sp_mem_alloc'),
-        'Store': marm('step_op_memory__Store', 'sp_mem_store', rewrites=[('R2', 'let [w, addr] = stack.pop2()?;', 'let t2 = stack.pop2()?; let w = t2[0]; let addr = t2[1];')]),
-        'Load': marm('step_op_memory__Load', 'sp_mem_load', rewrites=[('R9', '|addr| {', '|addr: Word| -> (o: OpResult<Word>) ensures match memory.load_spec(addr) { Some(w) => o == Ok::<Word, OpError>(w), None => o matches Err(e) && e is Memory } {')]),
+        'Store': marm('step_op_memory__Store', 'sp_mem_store', rewrites=[]),
+        'Load': marm('step_op_memory__Load', 'sp_mem_load', closures={0: {'params': 'addr: Word', 'ret': 'o: OpResult<Word>', 'ensures': 'match memory.load_spec(addr) { Some(w) => o == Ok::<Word, OpError>(w), None => o matches Err(e) && e is Memory }'}}),
         'Free': marm('step_op_memory__Free', 'sp_mem_free'),
-        'LoadRange': marm('step_op_memory__LoadRange', 'sp_mem_load_range', rewrites=[('R2', 'let [addr, size] = stack.pop2()?;', 'let t2 = stack.pop2()?; let addr = t2[0]; let size = t2[1];')]),
+        'LoadRange': marm('step_op_memory__LoadRange', 'sp_mem_load_range', rewrites=[]),
         'StoreRange': marm('step_op_memory__StoreRange', 'sp_mem_store_range', mode='assumed',
                            note='closure captures `memory` mutably (Verus: unsupported); callees pop_len_words and Memory::store_range are verified; composition is Kani K2'),
     })
@@ -541,8 +535,7 @@ pub open spec fn sp_memory(op: asm::Memory, s: Seq<i64>, m: Seq<i64>) -> Option<
             parent_memory@.len() > 0 ==> ({ let m = (*parent_memory@.last())@;
                 match (match op { asm::ParentMemory::Load => crate::sp_mem_load(old(stack)@, m), asm::ParentMemory::LoadRange => crate::sp_mem_load_range(old(stack)@, m) }) {
                     Some((s, m2)) => r is Ok && final(stack)@ =~= s, None => r is Err } })""",
-        rewrites=[('R9', '|addr| {', '|addr: Word| -> (o: OpResult<Word>) ensures match memory.load_spec(addr) { Some(w) => o == Ok::<Word, OpError>(w), None => o matches Err(e) && err_plain(e) } {'),
-                  ('R2', 'let [addr, size] = stack.pop2()?;', 'let t2 = stack.pop2()?; let addr = t2[0]; let size = t2[1];')],
+        closures={0: {'params': 'addr: Word', 'ret': 'o: OpResult<Word>', 'ensures': 'match memory.load_spec(addr) { Some(w) => o == Ok::<Word, OpError>(w), None => o matches Err(e) && err_plain(e) }'}},
         props=('C05', 'C08', 'C10')))
 
     # ------------------------------------------------------------------ state_read
@@ -568,7 +561,7 @@ pub open spec fn read_outcome<E>(res: Result<Seq<Seq<i64>>, E>, r: Result<(), Op
             match crate::sp_key_args(old(stack)@) {
                 Some((key, n, rest)) => r is Ok && r->Ok_0.0@ =~= key && r->Ok_0.1 == n as usize && final(stack)@ =~= rest,
                 None => r is Err }""",
-        rewrites=[R9('words', 'Ok(words.to_vec())', 'words: &[Word]', 'Result<Vec<Word>, StackError>', 'o is Ok && o->Ok_0@ =~= words@')],
+        closures={'pop_len_words::<_, _, StackError>(': {'params': 'words: &[Word]', 'ret': 'o: Result<Vec<Word>, StackError>', 'ensures': 'o is Ok && o->Ok_0@ =~= words@'}},
         props=('C05', 'C11')))
     sr.fn('write_values_to_memory', F('write_values_to_memory', requires='mem_wf(old(memory)@)', ensures="""mem_wf(final(memory)@),
             final(memory)@.len() == old(memory)@.len(),
@@ -727,17 +720,21 @@ pub open spec fn run_end_ok<OA: OpAccess<Op = Op>>(oa: OA, pc0: usize, halt0: bo
     EXEC_INV = """vm_wf(*self), crate::access::access_wf(access), op_access.spec_op_access(usize::MAX) is None,
                 gas_spent <= gas_limit.total, trace_fetched(op_access, pcs),
                 gas_spent == trace_cost(op_access, *op_gas_cost, pcs) + crate::sum_u64(child),
-                path_ok(op_access, old(self).pc, old(self).halt, pcs, ctrls)"""
+                path_ok(op_access, old(self).pc, old(self).halt, pcs, ctrls), steps == pcs.len()"""
     EXEC_INV_NB = """self.halt == old(self).halt, pcs.len() == 0 ==> self.pc == old(self).pc,
                 pcs.len() > 0 ==> !crate::total_control_flow::ctrl_stops(ctrls.last(), old(self).halt) && self.pc as int == crate::total_control_flow::ctrl_next(pcs.last(), ctrls.last())"""
     EXEC_LOOP_ENS = 'run_end_ok(op_access, old(self).pc, old(self).halt, pcs, ctrls, self.pc, self.halt)'
     EXEC_KW = dict(
           requires='vm_wf(*old(self)), crate::access::access_wf(access), op_access.spec_op_access(usize::MAX) is None',
-          head_ghost='let ghost mut pcs: Seq<usize> = Seq::empty(); let ghost mut child: Seq<u64> = Seq::empty(); let ghost mut ctrls: Seq<Option<ProgramControlFlow>> = Seq::empty();',
+          head_ghost='let ghost mut pcs: Seq<usize> = Seq::empty(); let ghost mut child: Seq<u64> = Seq::empty(); let ghost mut ctrls: Seq<Option<ProgramControlFlow>> = Seq::empty(); let ghost mut steps: nat = 0;',
           rewrites=[('R3', 'self.halt |= halt;', 'self.halt = self.halt || halt;'),
-                    ('R9', '|err| ExecError(self.pc, err.into())', '|err: OA::Error| -> (o: ExecError<S::Error>) ensures o.0 == self.pc { ExecError(self.pc, err.into()) }'),
-                    ('R1', '|&spent| spent <= gas_limit.total', '|spent_r: &u64| -> (b: bool) ensures b == (*spent_r <= gas_limit.total) { let spent = *spent_r; spent <= gas_limit.total }', 'all')],
+                    ],
+          closures={'res.map_err(': {'params': 'err: OA::Error', 'ret': 'o: ExecError<S::Error>', 'ensures': 'o.0 == self.pc'},
+                    'checked_add(op_gas).filter(': {'params': 'spent_r: &u64', 'ret': 'b: bool', 'ensures': 'b == (*spent_r <= gas_limit.total)', 'body_prefix': 'let spent = *spent_r;'},
+                    'checked_add(gas).filter(': {'params': 'spent_r: &u64', 'ret': 'b: bool', 'ensures': 'b == (*spent_r <= gas_limit.total)', 'body_prefix': 'let spent = *spent_r;'}},
           hints=[('gas_spent = next_spent;', 'after', 'let old_pcs = pcs; pcs = pcs.push(self.pc); assert(pcs.drop_last() =~= old_pcs);'),
+                 # C07 "stops before that operation has any effect": an op is executed only after it has been charged
+                 ('let res = step_op(', 'before', 'assert(pcs.len() == steps + 1 && pcs.last() == self.pc && gas_spent <= gas_limit.total); steps = steps + 1;'),
                  ('match update {', 'before', 'let old_ctrls = ctrls; ctrls = ctrls.push(update); assert(ctrls.drop_last() =~= old_ctrls);'),
                  ('self.pc = pc;', 'before', 'let old_child = child; child = child.push(gas); assert(child.drop_last() =~= old_child);')])
     vmm.impl('impl Vm', [
@@ -753,7 +750,8 @@ pub open spec fn run_end_ok<OA: OpAccess<Op = Op>>(oa: OA, pc0: usize, halt0: bo
             r matches Ok(b) ==> final(self).stack@.len() > 0 && w2b(final(self).stack@.last()) == Some(b),
             r matches Err(EvalError::InvalidEvaluation(st)) ==> final(self).stack@.len() == 0 || w2b(final(self).stack@.last()) is None""",
           rewrites=[('R1', 'Some(&w) => w,', 'Some(w_r) => *w_r,'),
-                    ('R9', '|| EvalError::InvalidEvaluation(self.stack.clone())', '|| -> (o: EvalError<S::Error>) ensures o is InvalidEvaluation { EvalError::InvalidEvaluation(self.stack.clone()) }')],
+                    ],
+          closures={'.ok_or_else(': {'ret': 'o: EvalError<S::Error>', 'ensures': 'o is InvalidEvaluation'}},
           props=('C05', 'C09')),
     ])
     return u
